@@ -62,6 +62,15 @@ SGE = {
     "Rr": {"running"}, "Rt": {"running"}, "s": {"running", "submitted"}, "S": {"running", "submitted"},
     "T": {"running", "submitted"}, "ts": {"running", "submitted"}, "Eqw": {"failed", "submitted", F},
     "dr": ANY, "dt": ANY,
+    # further combinations of the documented flags (qstat(1): d, E, h, r, R, s, S, t, T, w, q): a hold placed on a
+    # running job, a job rescheduled after a host failure and waiting or held again, the remaining suspended,
+    # error and deletion codes of the usual tables
+    "hr": {"running"}, "ht": {"running"}, "Rq": {"submitted"}, "hRq": {"submitted"}, "Rqw": {"submitted"},
+    "tS": {"running", "submitted"}, "tT": {"running", "submitted"}, "Rs": {"running", "submitted"},
+    "Rts": {"running", "submitted"}, "RS": {"running", "submitted"}, "RtS": {"running", "submitted"},
+    "RT": {"running", "submitted"}, "RtT": {"running", "submitted"},
+    "Ehqw": {"failed", "submitted", F}, "EhRqw": {"failed", "submitted", F},
+    "dRr": ANY, "dRt": ANY, "ds": ANY, "dS": ANY, "dT": ANY, "dRs": ANY, "dRS": ANY, "dRT": ANY,
 }
 PLAIN = {"PD", "R", "PENDING", "RUNNING", "PEND", "RUN", "qw", "r"}
 
